@@ -110,10 +110,10 @@ def explore(job):
         for _ in range(job.get("nvalid", 2)):
             vectors.append(("valid", G.mutate_inputs(prog, rnd, "valid"), False))
         vectors.append(("boundary", G.mutate_inputs(prog, rnd, "boundary"), False))
-        vectors.append(("wild", G.mutate_inputs(prog, rnd, "wild"), False))
+        vectors.append(("wild", G.mutate_inputs(prog, rnd, "wild", p=modulus), False))
         if props & {"C04", "C06"}:
             vectors.append(("primary-ignore", prog.primary(), True))
-            vectors.append(("wild-ignore", G.mutate_inputs(prog, rnd, "wild"), True))
+            vectors.append(("wild-ignore", G.mutate_inputs(prog, rnd, "wild", p=modulus), True))
             vectors.append(("boundary-ignore", G.mutate_inputs(prog, rnd, "boundary"), True))
         completed = []
         for vkind, inputs, ignore in vectors:
